@@ -21,6 +21,22 @@ import mbox_util as mu
 from mbox_util import KINDS, KIND_NO, eff_cap
 
 FAIR_STALL = "UnboundedFairMailbox:sender-deactivated-while-producer-mid-link"
+SEG_REUSE = "segmented:pooled-segment-reuse:stale-tail-producer"
+
+
+def map_stress_sig(cfg, sig):
+    """real-goroutine runs cannot show WHICH interleaving caused a loss; two known defects are
+    recognised by their only possible shape there"""
+    cls = sig.split(":", 1)[1] if ":" in sig else sig
+    if cfg.get("K") == "fair" and cfg.get("SameKey") and cls in ("stuck-at-quiescence:stress", "lost", "len-nonzero-when-empty"):
+        return FAIR_STALL
+    # pooled-segment reuse: confirmed by experiment (the same stress never loses a message once newSegment()
+    # stops taking segments from segmentPool); under real goroutines it shows as lost / stuck / misplaced
+    # messages or a producer looping over a corrupted chain
+    if cfg.get("K") == "segmented" and cls in ("stuck-at-quiescence:stress", "lost", "len-nonzero-when-empty", "hang",
+                                               "stress-timeout", "fifo-order", "rejected-but-delivered"):
+        return SEG_REUSE
+    return sig
 
 
 def E(i, s, p=0, b=0):
@@ -111,10 +127,10 @@ def gen_scenarios(ctx):
     t = 4 if ctx.thorough else 1
     scs = []
 
-    def add(name, kind, threads, cap=0, pf=0, prefill=(), pre=2, runs=260, rnd=100, drain=10, procs=0, scripts=None):
+    def add(name, kind, threads, cap=0, pf=0, prefill=(), pre=2, runs=260, rnd=100, drain=10, procs=0, scripts=None, traces=0):
         scs.append(dict(Name=name, K=kind, C=cap, Eff=eff_cap(kind, cap), P=pf, Procs=procs, Prefill=list(prefill),
                         Threads=threads, MaxPreempt=pre, MaxRuns=runs * t, RandomRuns=rnd * t, Drain=drain,
-                        Scripts=scripts or []))
+                        Scripts=scripts or [], Traces=traces * t))
 
     for kind in ["unbounded", "segmented", "fair", "nbbounded", "uprio", "ustable", "bprio", "bstable"]:
         cap = 2 if kind in mu.BOUNDED else 0
@@ -123,7 +139,8 @@ def gen_scenarios(ctx):
         # (directed: each producer paused at each of its first yield points while the other completes
         #  and the consumer runs; then enumeration + random)
         paused = [[[a, k], [1 - a, -1], [2, -1], [a, -1]] for a in (0, 1) for k in range(1, 13)]
-        add(kind + "/2p-1c", kind, [[E(1, 1, 4)], [E(2, 2, 3)], [D, Z, D]], cap=cap, pf=pf, scripts=paused)
+        add(kind + "/2p-1c", kind, [[E(1, 1, 4)], [E(2, 2, 3)], [D, Z, D]], cap=cap, pf=pf, scripts=paused,
+            traces=150 if kind == "unbounded" else 0)
         # prefilled, a producer with two messages, one with one, consumer dequeues and reads Len
         add(kind + "/pre-3p-1c", kind, [[E(1, 1, 5), E(3, 1, 2)], [E(2, 2, 5)], [D, D, L, D]], cap=cap, pf=pf,
             prefill=[E(9, 3, 5)], runs=320, rnd=150, drain=12)
@@ -134,8 +151,8 @@ def gen_scenarios(ctx):
             add(kind + "/full-2p-1c", kind, [[E(1, 1, 1)], [E(2, 2, 1)], [D]], cap=c1, pf=pf, prefill=pre, runs=450, rnd=150)
     # fair: same sender key from two goroutines (+ a third sender), and the anonymous key
     paused = [[[a, k], [1 - a, -1], [2, -1], [a, -1]] for a in (0, 1) for k in range(1, 13)]
-    add("fair/samekey-2p", "fair", [[E(1, 7)], [E(2, 7)], [D, D]], runs=700, rnd=200, scripts=paused)
-    add("fair/samekey-3p", "fair", [[E(1, 7), E(4, 7)], [E(2, 7)], [E(3, 8)], [D, D, D]], prefill=[E(9, 7)], runs=700, rnd=300, drain=14)
+    add("fair/samekey-2p", "fair", [[E(1, 7)], [E(2, 7)], [D, D]], runs=700, rnd=200, scripts=paused, traces=120)
+    add("fair/samekey-3p", "fair", [[E(1, 7), E(4, 7)], [E(2, 7)], [E(3, 8)], [D, D, D]], runs=700, rnd=300, drain=14, traces=120)
     add("fair/nosender-2p", "fair", [[E(1, -1)], [E(2, -1)], [D, Z, D]], runs=300, rnd=100)
     # priority: stable order under concurrency, equal keys
     add("ustable/equal-keys", "ustable", [[E(1, 1, 3), E(2, 1, 6)], [E(3, 2, 0)], [D, D]], pf=2, prefill=[E(9, 3, 9), E(8, 3, 1)], runs=400, rnd=150, drain=12)
@@ -203,6 +220,168 @@ Eval vm_compute in summary.
         return None, None, out[-3000:]
     det = re.findall(r"\((-?\d+), (-?\d+), \((-?\d+), (-?\d+), (-?\d+)\), \((-?\d+), (-?\d+), (-?\d+)\)\)", m.group(3))
     return int(m.group(1)), int(m.group(2)), [dict(case=int(d[0]), op_index=int(d[1]), model=[int(x) for x in d[2:5]], implementation=[int(x) for x in d[5:8]]) for d in det]
+
+
+# atomic-step trace conformance for the fair mailbox: every yield point the scheduler passed is either one
+# step of C04/ConcFair.v or private to its thread; the model replays the same interleaving and must
+# produce the same Dequeue results and the same final Len
+FAIR_STEP = {
+    "UnboundedMailbox.Enqueue/SwapPointer#1", "UnboundedMailbox.Enqueue/StorePointer#2",
+    "UnboundedFairMailbox.Enqueue/AddInt64#1", "UnboundedFairMailbox.Enqueue/AddInt64#2",
+    "UnboundedFairMailbox.Enqueue/active.CompareAndSwap#1",
+    "activeSenders.enqueue/tail.Swap#1", "activeSenders.enqueue/StorePointer#2",
+    "activeSenders.dequeue/LoadPointer#1", "UnboundedMailbox.Dequeue/LoadPointer#2",
+    "UnboundedFairMailbox.Dequeue/active.Store#1", "UnboundedFairMailbox.Dequeue/AddInt64#1",
+    "UnboundedFairMailbox.Dequeue/AddInt64#2",
+    "UnboundedFairMailbox.finalizeSender/active.Store#1", "UnboundedFairMailbox.finalizeSender/LoadInt64#1",
+}
+FAIR_SKIP = {
+    "", "op-boundary", "UnboundedFairMailbox.Enqueue/senders.Load#1", "senderLoadOrStore/senderLoadOrStoreFn.Load#1",
+    "UnboundedMailbox.Enqueue/StorePointer#1", "activeSenders.enqueue/pool.Get#1", "activeSenders.enqueue/value.Store#1",
+    "activeSenders.enqueue/StorePointer#1", "activeSenders.dequeue/head.Load#1", "activeSenders.dequeue/head.Store#1",
+    "activeSenders.dequeue/value.Load#1", "activeSenders.dequeue/StorePointer#1", "activeSenders.dequeue/value.Store#1",
+    "activeSenders.dequeue/pool.Put#1", "UnboundedMailbox.Dequeue/LoadPointer#1", "UnboundedMailbox.Dequeue/StorePointer#1",
+    "UnboundedMailbox.Dequeue/StorePointer#2", "UnboundedFairMailbox.finalizeSender/StoreInt64#1",
+}
+
+
+def fair_conformance(ctx, scs, sched):
+    """returns (n_traces, n_mismatch, detail, unknown_labels)"""
+    by_name = {s["Name"]: s for s in scs}
+    items, unknown = [], set()
+    for s in sched:
+        sc = by_name.get(s["Scenario"])
+        if not sc or sc["K"] != "fair" or sc.get("Prefill"):
+            continue
+        nprod = len(sc["Threads"]) - 1
+        progs = []
+        ok = True
+        for th in sc["Threads"][:-1]:
+            if any(op[0] != 0 for op in th):
+                ok = False
+            progs.append("[" + "; ".join("mkMsg %s %s %s" % (zlit(op[1]), zlit(op[2]), zlit(op[3])) for op in th) + "]")
+        if not ok or any(op[0] != 1 for op in sc["Threads"][-1]):
+            continue
+        for tr in s.get("Traces") or []:
+            steps = []
+            good = True
+            for th, lab in tr["Steps"]:
+                if lab in FAIR_STEP:
+                    steps.append(th)
+                elif lab not in FAIR_SKIP:
+                    unknown.add(lab)
+                    good = False
+            if not good:
+                continue
+            ndeq = len(tr["Deqs"])
+            want = "[" + "; ".join(("Some %s" % zlit(d)) if d >= 0 else "None" for d in tr["Deqs"]) + "]"
+            items.append("([%s], [%s]%%nat, %d%%nat, %s, %s)" % ("; ".join(progs), "; ".join(steps), ndeq, want, zlit(tr["Len"])))
+    if not items:
+        return 0, 0, None, sorted(unknown)
+    body = """From Coq Require Import ZArith List Bool. Import ListNotations.
+From GV Require Import C04.Model C04.ConcFair.
+Open Scope Z_scope.
+Fixpoint oz_eqb (a b : list (option Z)) : bool :=
+  match a, b with [], [] => true
+  | Some x :: r, Some y :: s => (x =? y) && oz_eqb r s | None :: r, None :: s => oz_eqb r s | _, _ => false end.
+(* after the recorded interleaving every thread has returned; the drain is the consumer alone *)
+Definition replay (c : list (list msg) * list nat * nat * list (option Z) * Z) :=
+  match c with (progs, steps, ndeq, want, len) =>
+    let s := frun (steps ++ repeat (length progs) (12 * ndeq)) (finit progs ndeq) in
+    (oz_eqb (couts s) want && (clength s =? len), couts s, clength s) end.
+Definition cases : list (list (list msg) * list nat * nat * list (option Z) * Z) := [
+%s
+].
+Definition bad := filter (fun c => negb (fst (fst (replay c)))) cases.
+Eval vm_compute in (length cases, length bad, map (fun c => (snd (fst (replay c)), snd (replay c), c)) (firstn 1 bad)).
+""" % ";\n".join(items)
+    rc, out = ctx.coq_eval("trace_C04", body, timeout=600)
+    m = re.search(r"= \((\d+)%nat, (\d+)%nat, (\[.*\])\) : ", " ".join(out.split()))
+    if rc != 0 or not m:
+        return None, None, out[-3000:], sorted(unknown)
+    return int(m.group(1)), int(m.group(2)), m.group(3)[:2500], sorted(unknown)
+
+
+RQ_SKIP = {"", "op-boundary", "UnboundedMailbox.Enqueue/StorePointer#1", "UnboundedMailbox.Dequeue/LoadPointer#1",
+           "UnboundedMailbox.Dequeue/StorePointer#1", "UnboundedMailbox.Dequeue/StorePointer#2",
+           "UnboundedMailbox.IsEmpty/LoadPointer#1"}
+
+
+def rq_conformance(ctx, scs, sched):
+    """UnboundedMailbox vs the reservation queue of C04/Contract.v on the recorded interleavings:
+    tail swap = reserve, link = publish, the head.next load of Dequeue / IsEmpty = deq / isEmpty."""
+    by_name = {s["Name"]: s for s in scs}
+    items, unknown = [], set()
+    for s in sched:
+        sc = by_name.get(s["Scenario"])
+        if not sc or sc["K"] != "unbounded" or sc.get("Prefill"):
+            continue
+        if any(op[0] == 2 for th in sc["Threads"] for op in th):
+            continue  # Len walks the list: not a single decisive read
+        for tr in s.get("Traces") or []:
+            opi = {}
+            acts, good = [], True
+            for th, lab in tr["Steps"]:
+                t = int(th)
+                if lab == "":
+                    opi[t] = 0
+                elif lab == "op-boundary":
+                    opi[t] = opi.get(t, 0) + 1
+                ops = sc["Threads"][t]
+                op = ops[min(opi.get(t, 0), len(ops) - 1)]
+                if lab == "UnboundedMailbox.Enqueue/SwapPointer#1":
+                    acts.append("AReserve %s" % zlit(op[1]))
+                elif lab == "UnboundedMailbox.Enqueue/StorePointer#2":
+                    acts.append("APublish %s" % zlit(op[1]))
+                elif lab == "UnboundedMailbox.Dequeue/LoadPointer#2":
+                    acts.append("ADeq")
+                elif lab == "UnboundedMailbox.IsEmpty/LoadPointer#2":
+                    acts.append("AIsEmpty")
+                elif lab not in RQ_SKIP:
+                    unknown.add(lab)
+                    good = False
+            if not good:
+                continue
+            # observed: concurrent-phase consumer results in order, then the drain Dequeues
+            items.append("([%s], %d%%nat, [%s])" % ("; ".join(acts), sc["Drain"], "; ".join(zlit(d) for d in tr["Obs"])))
+    if not items:
+        return 0, 0, None, sorted(unknown)
+    body = """From Coq Require Import ZArith List Bool. Import ListNotations.
+From GV Require Import C04.Contract.
+Open Scope Z_scope.
+Inductive act := AReserve (m : Z) | APublish (m : Z) | ADeq | AIsEmpty.
+Definition M := rq Z.eq_dec None.
+Fixpoint play (s : rq_state Z) (l : list act) (out : list Z) : rq_state Z * list Z :=
+  match l with
+  | [] => (s, out)
+  | AReserve m :: r => play (match rq_reserve None s m with Some s' => s' | None => s end) r out
+  | APublish m :: r => play (complete Z.eq_dec m s) r out
+  | ADeq :: r => let '(o, s') := rq_deq s in play s' r (out ++ [match o with Some m => m | None => -1 end])
+  | AIsEmpty :: r => play s r (out ++ [if rq_isEmpty s then 1 else 0])
+  end.
+Fixpoint zl_eqb (a b : list Z) : bool :=
+  match a, b with [], [] => true | x :: r, y :: s => (x =? y) && zl_eqb r s | _, _ => false end.
+(* drain: Dequeue until three nils (at most n calls) *)
+Fixpoint drain (n nils : nat) (s : rq_state Z) (out : list Z) : list Z :=
+  match n with
+  | O => out
+  | S n' => if Nat.leb 3 nils then out else
+            let '(o, s') := rq_deq s in
+            match o with Some m => drain n' 0 s' (out ++ [m]) | None => drain n' (S nils) s' (out ++ [-1]) end
+  end.
+Definition cases : list (list act * nat * list Z) := [
+%s
+].
+Definition replay (c : list act * nat * list Z) :=
+  match c with (acts, ndrain, want) => let '(s, out) := play [] acts [] in drain ndrain 0 s out end.
+Definition bad := filter (fun c => negb (zl_eqb (replay c) (snd c))) cases.
+Eval vm_compute in (length cases, length bad, map (fun c => (replay c, c)) (firstn 1 bad)).
+""" % ";\n".join(items)
+    rc, out = ctx.coq_eval("trace_rq_C04", body, timeout=600)
+    m = re.search(r"= \((\d+)%nat, (\d+)%nat, (\[.*\])\) : ", " ".join(out.split()))
+    if rc != 0 or not m:
+        return None, None, out[-3000:], sorted(unknown)
+    return int(m.group(1)), int(m.group(2)), m.group(3)[:2500], sorted(unknown)
 
 
 def pow2_compare(ctx, ins, outs):
@@ -392,7 +571,7 @@ def run(ctx):
         for v in vs:
             sig = v["Sig"]
             if aba and sig in ("segmented:wrong-mailbox", "segmented:len-nonzero-when-empty", "segmented:empty-report-while-enqueue-in-flight"):
-                sig = "segmented:pooled-segment-reuse:stale-tail-producer"
+                sig = SEG_REUSE
             if sig.startswith("fair:stuck-at-quiescence:same-sender-concurrent-enqueues"):
                 sig = FAIR_STALL
             elif ":stuck-at-quiescence" in sig:
@@ -407,14 +586,33 @@ def run(ctx):
     if scs and len(sched) != len(scs):
         ctx.tie_broken("schedule harness wrote %d of %d scenario summaries" % (len(sched), len(scs)), out[-3000:])
 
+    # ---- (T) atomic-step conformance of the fair-mailbox model on the recorded interleavings
+    conf_n = conf_bad = None
+    if sched:
+        conf_n, conf_bad, conf_det, unknown = fair_conformance(ctx, scs, sched)
+        if unknown:
+            ctx.notes.append("fair-mailbox trace conformance: yield points not in the label table (traces through them skipped): %s" % unknown)
+        if conf_n is None:
+            ctx.tie_broken("trace_C04.v did not evaluate", conf_det)
+        elif conf_bad:
+            ctx.tie_broken("atomic-step model C04/ConcFair.v vs the real fair mailbox: %d of %d recorded interleavings give different Dequeue results" % (conf_bad, conf_n), conf_det)
+
+    rq_n = rq_bad = None
+    if sched:
+        rq_n, rq_bad, rq_det, unknown = rq_conformance(ctx, scs, sched)
+        if unknown:
+            ctx.notes.append("UnboundedMailbox trace conformance: yield points not in the label table (traces skipped): %s" % unknown)
+        if rq_n is None:
+            ctx.tie_broken("trace_rq_C04.v did not evaluate", rq_det)
+        elif rq_bad:
+            ctx.tie_broken("reservation-queue model C04/Contract.v vs the real UnboundedMailbox: %d of %d recorded interleavings give different results" % (rq_bad, rq_n), rq_det)
+
     # ---- stress
     stress_msgs = 0
     for s in strs:
         stress_msgs += s["Accepted"]
         for v in s.get("Violations") or []:
-            sig = v["Sig"]
-            if sig == "fair:stuck-at-quiescence:stress" and s["Cfg"].get("SameKey"):
-                sig = FAIR_STALL
+            sig = map_stress_sig(s["Cfg"], v["Sig"])
             if sig in sig_seen:
                 continue
             sig_seen[sig] = 1
@@ -438,9 +636,10 @@ def run(ctx):
                 ctx.notes.append("race detector report outside the mailbox files (harness bookkeeping): ignored")
         for s in read_jsonl(os.path.join(ctx.work, "c04_stress_out.jsonl")):
             for v in s.get("Violations") or []:
-                if v["Sig"] not in sig_seen:
-                    sig_seen[v["Sig"]] = 1
-                    ctx.violation(v["Sig"], "%s [stress under -race %s]: %s" % (s["Cfg"]["K"], json.dumps(s["Cfg"]), v["What"]), {"stress": s["Cfg"], "seed": ctx.seed})
+                sig = map_stress_sig(s["Cfg"], v["Sig"])
+                if sig not in sig_seen:
+                    sig_seen[sig] = 1
+                    ctx.violation(sig, "%s [stress under -race %s]: %s" % (s["Cfg"]["K"], json.dumps(s["Cfg"]), v["What"]), {"stress": s["Cfg"], "seed": ctx.seed})
 
     # ---- the theorems
     if not ctx.coq_property():
@@ -466,6 +665,8 @@ def run(ctx):
         "mailboxes": KINDS, "capacities": sorted({c["C"] for c in cases}),
         "schedule_scenarios": len(sched), "schedules_run": sched_runs, "schedule_steps": sched_steps, "distinct_histories": sched_distinct,
         "yield_points": notes.get("yield_points"),
+        "rq_model_interleavings_replayed": rq_n, "rq_model_interleaving_mismatches": rq_bad,
+        "fair_model_interleavings_replayed": conf_n, "fair_model_interleaving_mismatches": conf_bad,
         "stress_configs": len(strs), "stress_messages": stress_msgs,
         "signatures_seen": sig_seen,
         "theorems": thms,
